@@ -42,6 +42,9 @@ type exchCase struct {
 
 var errInjected = errors.New("verif: injected transport failure")
 
+// errCallerCause is the cause the caller attaches to its cancellation; it looks like a retryable client error on purpose
+var errCallerCause error = &modbus.ClientError{Err: errors.New("verif: the caller's own reason for giving up")}
+
 func errKind(err error) string {
 	switch {
 	case err == nil:
@@ -295,7 +298,7 @@ func newExchClientW(kind string, hooks bool, timeoutMs, writeTimeoutMs int, seri
 	}
 	timeout := time.Duration(timeoutMs) * time.Millisecond
 	switch kind {
-	case "tcp", "rtu", "tcpgen", "gendef":
+	case "tcp", "rtu", "tcpgen", "gendef", "rtuparse":
 		conf := modbus.ClientConfig{ReadTimeout: timeout, WriteTimeout: time.Duration(writeTimeoutMs) * time.Millisecond,
 			DialContextFunc: func(ctx context.Context, address string) (net.Conn, error) {
 				switch ec.dialMode {
@@ -315,6 +318,11 @@ func newExchClientW(kind string, hooks bool, timeoutMs, writeTimeoutMs int, seri
 		case "tcp":
 			nc = modbus.NewTCPClientWithConfig(conf)
 		case "rtu":
+			nc = modbus.NewRTUClientWithConfig(conf)
+		case "rtuparse":
+			// the RTU client with ONE of its two protocol functions supplied by the caller: a wrapper around the RTU parser
+			// (logging, metrics); the exception recogniser of the read loop stays the constructor's business
+			conf.ParseResponseFunc = func(data []byte) (packet.Response, error) { return packet.ParseRTUResponseWithCRC(data) }
 			nc = modbus.NewRTUClientWithConfig(conf)
 		case "gendef":
 			// the configurable client with nothing configured but the dial function: TCP is the library's default protocol
@@ -396,11 +404,16 @@ func (ec *exchClient) run(c *exchCase, timeoutMs int) []Ev {
 	lg.add(Ev{"ev": "reset", "client": c.Client, "req": argsEv(&a), "reqBytes": reqBytes, "explen": explen, "reply": orEmpty(c.Reply),
 		"script": c.Script, "fault": c.Fault, "hooks": c.Hooks, "pair": c.Pair, "timeoutMs": timeoutMs, "seqpos": c.SeqPos, "seqlen": c.SeqLen})
 
-	ctx, cancel := context.WithCancel(context.Background())
+	// the caller's context carries a CAUSE (context.WithCancelCause / WithTimeoutCause): what a cancelled call returns is
+	// still the context's error - errors.Is(err, context.Canceled / DeadlineExceeded) - whatever the cause says
+	ctx, cancelCause := context.WithCancelCause(context.Background())
+	cancel := func() { cancelCause(errCallerCause) }
 	if c.Fault == "ctxdeadline" {
 		// the caller's own deadline is shorter than the client's total read timeout
 		cancel()
-		ctx, cancel = context.WithTimeout(context.Background(), time.Duration(timeoutMs/4)*time.Millisecond)
+		var cancelT context.CancelFunc
+		ctx, cancelT = context.WithTimeoutCause(context.Background(), time.Duration(timeoutMs/4)*time.Millisecond, errCallerCause)
+		cancel = func() { cancelT() }
 	}
 	defer cancel()
 	script := make([]step, len(c.Script))
